@@ -77,7 +77,9 @@ pub enum DigestAlgorithm {
 
 impl DigestId {
     pub fn new(i: i32) -> DigestId {
-        DigestId(if i.is_negative() { -i } else { i })
+        // `i32::MIN` has no positive counterpart: `-i` overflows (panic in debug builds, a
+        // negative id in release builds). Saturate instead so the id is always in 0..=i32::MAX.
+        DigestId(i.saturating_abs())
     }
 }
 
